@@ -51,3 +51,17 @@ Proof.
   eexists _, _. split; [vm_compute; reflexivity|]. split; [vm_compute; reflexivity|].
   split; [reflexivity|]. split; vm_compute; reflexivity.
 Qed.
+
+(* ---------------------------------------------------------------- cshape is what the runner's comparison ctree_eqb_shape decides *)
+Lemma st_eqb_refl s : st_eqb s s = true.
+Proof.
+  destruct s as [| | |ws]; try reflexivity. cbn [st_eqb]. rewrite Nat.eqb_refl. cbn [andb].
+  induction ws as [|w ws IH]; [reflexivity|]. cbn [combine forallb fst snd]. rewrite IH.
+  rewrite (proj2 (veqb_spec w w) eq_refl). reflexivity.
+Qed.
+Lemma cshape_eqb x : forall y, cshape x y -> ctree_eqb_shape x y = true.
+Proof.
+  induction x as [|i l f s x0 IH0 x1 IH1]; intros [|j m g r y0 y1]; cbn [cshape ctree_eqb_shape]; try tauto.
+  intros [-> [-> [-> [H0 H1]]]]. rewrite (IH0 _ H0), (IH1 _ H1), st_eqb_refl, (proj2 (aff_eqb_spec g g) eq_refl).
+  destruct m; reflexivity.
+Qed.
